@@ -528,6 +528,43 @@ func suiteCMap(o *suiteOut, r *rng, tier string, n int) {
 		o.emit(line, "skip", true)
 		o.count("files with several CMaps")
 	}
+	// which of several resources ReadCMap returns: the smallest key in byte order (the empty name is the smallest of all),
+	// whatever the order of registration; the dictionary gets the key as CMapName unless it has a non-empty one
+	for i := 0; i < nr/5+40; i++ {
+		rr := newRng(r.next())
+		keyPool := []string{"", "A", "AB", "B", "Alpha", "Beta", "a", "Z", "0", "-", "~", "\xe9", "Aa", "A-", "AA"}
+		perm := rr.perm(len(keyPool))
+		nk := rr.rangeInt(1, 6)
+		var prog strings.Builder
+		var ents []string
+		prog.WriteString("%!PS\n")
+		for j := 0; j < nk; j++ {
+			key := keyPool[perm[j]]
+			given := "none"
+			def := ""
+			switch rr.intn(4) {
+			case 0:
+				g := pick(rr, []string{"Given", "", "zz"})
+				given = hx([]byte(g))
+				def = "/CMapName /" + g + " def\n"
+			}
+			fmt.Fprintf(&prog, "/CIDInit /ProcSet findresource begin\n12 dict begin\nbegincmap\n/Idx %d def\n%sendcmap\n/%s currentdict /CMap defineresource pop\nend\nend\n", j, def, key)
+			ents = append(ents, hx([]byte(key))+":"+given)
+		}
+		line := "pickcmap " + strings.Join(ents, ",")
+		d, err, pan := readCMapSafe([]byte(prog.String()))
+		res := "none"
+		if pan != "" {
+			res = "panic"
+			o.fail("C01", "no panic in the CMap reader", line, "error value", pan)
+		} else if err == nil {
+			idx, _ := d["Idx"].(postscript.Integer)
+			nm, _ := d["CMapName"].(postscript.Name)
+			res = fmt.Sprintf("%d %s", idx, hx([]byte(nm)))
+		}
+		o.emit(line, res, nk > 1)
+		o.count("choice among several resources")
+	}
 	o.notes = append(o.notes, "CMap files with any number of blocks of the seven kinds in any order, 0-100 entries, code lengths 1-4 mixed, destinations of every allowed type, optional usecmap, varying white space and comments; each file also with one single-fault variant (wrong source type, unequal bound lengths, low > high, wrong destination type, declared count larger than the entries supplied, 101 entries, missing begincmap); direct oracle: returned dictionary equals the file's content with every table sorted; every file also runs through the Lean interpreter model (CIDInit operators)")
 }
 
